@@ -13,12 +13,6 @@
 From PV Require Export PyVal.
 Open Scope string_scope.
 
-(** Printing only (no logical content): the correspondence shards print the list of
-    disagreeing case indices, and the harness reads that list with a regular expression
-    that does not survive Coq's line wrapping inside a pair; importing this module makes
-    the list print on one line. *)
-#[export] Set Printing Width 1000000.
-
 (** * Attribute table of the scalar settings: string-keyed, fixed order *)
 Definition smap := list (string * val).
 
@@ -229,12 +223,14 @@ Definition update (c : config) (p : dict) : cres config :=
 Definition is_mapping (v : val) : bool := match v with VDict _ => true | _ => false end.
 
 Definition handle_payload (c : config) (path : string) (payload : val) : cres config :=
-  if py_truth payload then
-    match payload with
-    | VDict d => cbind (update c d) (fun c' => COk (with_loaded c' path))
-    | _ => CErr (ENotMapping path)
-    end
-  else COk c.     (* falsy payload — None, {}, but also [], 0, false, '' — silently skipped *)
+  match payload with
+  | VNone => COk c                      (* file not found, or an empty document *)
+  | VDict d =>
+      if py_truth payload                (* an empty mapping is accepted, not merged, not listed *)
+      then cbind (update c d) (fun c' => COk (with_loaded c' path))
+      else COk c
+  | _ => CErr (ENotMapping path)        (* anything else, falsy or not: [], 0, false, '' too *)
+  end.
 
 (** [Config.load_yaml] *)
 Definition load_yaml (fs : fsys) (path : string) (raise_not_found : bool) : cres val :=
